@@ -30,6 +30,8 @@ CONSTANTS Trajs,        \* trajectory identifiers
           Forms, Labels,
           ConvTargets,  \* set of <<frame, form>> a conversion may ask for
           Tabs,         \* set of <<span, step>> for tabulations (ticks), each giving >= 8 nodes
+          Stations,     \* ground stations from which a state may be measured
+          Bodies,       \* analytical bodies that may be asked for their state ("Sun", "Moon")
           KvnDumpConvertsEphem,   \* named deviation (TRUE = what the code does): writing an ephemeris as a KVN OEM converts the
                                   \* CALLER's ephemeris to cartesian in place; the XML writer does not
           MaxObjs, MaxLen
@@ -96,6 +98,13 @@ Dump(i, fmt) ==
 Load(i) == IsText(i) /\ New([heap[i] EXCEPT !.kind = IF @ = "text-state" THEN "sv" ELSE "ephem", !.form = "cartesian", !.fmt = "-", !.nl = @ + 1], "load", i, "-", "-")
 Pickle(i) == (IsState(i) \/ IsEphem(i)) /\ New(heap[i], "pickle", i, "-", "-")
 
+\* OBSERVATIONS: they create nothing and change nothing; what they return is a function of what the object denotes (or of the
+\* date alone) - whatever was measured, asked or converted before.  The replay compares each with a value that does not go
+\* through the session's objects (the oracle state; a table of body states computed in another process).
+Measure(i, st) == IsState(i) /\ Call("measure", i, st, "-") /\ UNCHANGED heap
+\* ask a body for its state at tick t under a label; `mut` says what the caller then does IN PLACE to the state he was handed
+AskBody(b, t, lab, mut) == Call("body", 0, t, <<b, lab, mut>>) /\ UNCHANGED heap
+
 Next ==
   /\ Can
   /\ \/ \E tr \in Trajs : NewOrbit(tr)
@@ -110,6 +119,8 @@ Next ==
           \/ \E h \in {0, 3, 7} : Interpolate(i, h)
           \/ \E fmt \in {"kvn", "xml"} : Dump(i, fmt)
           \/ Load(i) \/ Pickle(i)
+          \/ \E st \in Stations : Measure(i, st)
+     \/ \E b \in Bodies, t \in Ticks, lab \in Labels, mut \in {"none", "frame", "form"} : AskBody(b, t, lab, mut)
 
 Spec == Init /\ [][Next]_vars
 
